@@ -191,6 +191,22 @@ def run(R):
             R.viol("C01.nonce.key", "nonce-key:%s" % fn.split("::")[-1], "nonce in %s is not derived from the record's own key" % fn, b, b.lines[0])
     R.inst("C01.nonce.key", "K6 flows-to", "encrypt and decrypt use nonce(record's own key)", 2, okn)
 
+    # (3b) the only way put_verified accepts a record *without* writing it is a cache hit with byte-identical content
+    pvb = R.body("C01.cache-shortcut", PUTV)
+    if pvb is not None:
+        prep(pvb)
+        g = cfg_of(pvb)
+        spawn = set(CallSink("tokio::task::spawn::spawn").blocks(pvb))
+        early = [b for b in RetSink("Ok").blocks(pvb) if b in g.reach((0,), avoid=spawn)]
+        if early:
+            vals = lambda b: Taint(b).closure({d for d, r, p in field_reads(b, "value")})
+            same = CmpGuard(vals, vals, "Eq", "cached.value == new.value")
+            hit = CallGuard([RS + "RecordCache::remove", RS + "RecordCache::get"], ("Some",), "cache holds the key")
+            R.gate("C01.cache-shortcut", pvb, BlockSink(lambda b, e=early: e, "Ok without a disk write"), [[same], [hit]],
+                   descr="put_verified skips the disk write only for a cached record with identical value")
+        else:
+            R.inst("C01.cache-shortcut", "K4 gate", "put_verified has no accepting path that skips the disk write", 0, True)
+
     # (4) read gate
     get = R.body("C01.get", GET)
     if get is not None:
